@@ -118,7 +118,9 @@ func c08Enum(w *mon.W, idx int) {
 			w.Bucket("byte>=0x80")
 		}
 	}
-	w.Sample(func() interface{} { return mon.D{"width": n, "strings": fmt.Sprintf("first byte %#x x all second bytes", hi)} })
+	w.Sample(func() interface{} {
+		return mon.D{"width": n, "strings": fmt.Sprintf("first byte %#x x all second bytes", hi)}
+	})
 }
 
 func c08Random(w *mon.W, idx int) {
